@@ -25,6 +25,7 @@ type scriptedConsumer struct {
 	assignErr        bool
 	unassignErr      bool // Unassign reports a failure (after having been recorded)
 	committedErrOnce bool // the next Committed query fails, later ones succeed
+	committedRev     bool // a complete reply comes in another order than the request (the broker owes no order)
 	partitions       int  // for GetMetadata
 	events           chan kafka.Event
 	calls            []string // "assign p:o,..." | "unassign"
@@ -121,6 +122,11 @@ func (s *scriptedConsumer) Committed(ps []kafka.TopicPartition, _ int) ([]kafka.
 			out = append(out, t)
 		}
 	}
+	if s.committedRev {
+		for i, j := 0, len(out)-1; i < j; i, j = i+1, j-1 {
+			out[i], out[j] = out[j], out[i]
+		}
+	}
 	return out, nil
 }
 func (s *scriptedConsumer) QueryWatermarkOffsets(_ string, p int32, _ int) (int64, int64, error) {
@@ -160,7 +166,7 @@ type recordingContext struct {
 	sent      []fbcontext.Message
 	acked     []fbcontext.Message
 	sendErr   bool
-	stallNext bool // the next SendMessage stalls for up to 10 ms (or until another send has been recorded)
+	stallNext bool          // the next SendMessage stalls for up to 10 ms (or until another send has been recorded)
 	stalling  chan struct{} // closed when that send has begun to stall
 }
 
